@@ -381,14 +381,15 @@ type xrunner struct {
 	baseline  func(code string, kind string) (string, bool) // nil: the input itself is the reference
 	onOutput  func(cs xcase, cfg string, out string)        // optional extra oracle per output
 	keyPrefix string
-	fresh     bool                                  // evaluate every code in a fresh V8 context (outputs with top-level helper variables)
-	skipCfg   func(cs xcase, cfg string) bool       // optional: configurations that do not apply to a case
-	prelude   string                                // script evaluated in the context before every code (not seen by esbuild)
-	quiet     bool                                  // universal proxies do not log ownKeys / .call lookups
-	noNames   bool                                  // do not observe constructor/function names (minify-identifiers without keep-names)
-	classify  func(exp, got string) string          // maps a mismatch to a known-finding key ("" = ordinary violation)
-	classify2 func(exp, got, input string) []string // same, several keys, sees the input (nil/empty = ordinary violation)
+	fresh     bool                                                     // evaluate every code in a fresh V8 context (outputs with top-level helper variables)
+	skipCfg   func(cs xcase, cfg string) bool                          // optional: configurations that do not apply to a case
+	prelude   string                                                   // script evaluated in the context before every code (not seen by esbuild)
+	quiet     bool                                                     // universal proxies do not log ownKeys / .call lookups
+	noNames   bool                                                     // do not observe constructor/function names (minify-identifiers without keep-names)
+	classify  func(exp, got string) string                             // maps a mismatch to a known-finding key ("" = ordinary violation)
+	classify2 func(exp, got, input string) []string                    // same, several keys, sees the input (nil/empty = ordinary violation)
 	transform func(code string, o api.TransformOptions) (string, bool) // nil: api.Transform; else e.g. a bundle of code + imported modules
+	skipObs   func(refObs string) bool                                 // optional: reference observations the generator must not produce (counted, skipped)
 }
 
 // runBatch evaluates a batch of cases: reference (input) vs every configuration's output in V8.
@@ -480,6 +481,10 @@ func (x *xrunner) runBatch(w int, cases []xcase, seg string) {
 			if os.Getenv("VERIF_DEBUG") != "" {
 				fmt.Println("TIMEOUT", strings.ReplaceAll(p.cs.code, "\n", " "))
 			}
+			continue
+		}
+		if x.skipObs != nil && x.skipObs(obs[0]) {
+			c.Sub("generator_observes_excluded_state", 1)
 			continue
 		}
 		c.Sub("executed", 1)
